@@ -79,7 +79,23 @@ def c16_a(ctx: Ctx):
     # the check itself counts duplicates over all jobs
     ck = ctx.fn(CHECK)
     t = " ".join(canon(n) for n in body_nodes(ck) if isinstance(n, (ast.Assign, ast.If)))
-    if "Counter(" in t and ("count > 1" in t or "> 1" in t) and any(isinstance(n, ast.Raise) for n in body_nodes(ck)):
+    # what is counted is the generated path itself (at most normalised), not a coarser key
+    counted = None
+    for c in body_nodes(ck):
+        if isinstance(c, ast.Call) and (dotted(c.func) or "").split(".")[-1] == "Counter" and c.args and isinstance(c.args[0], (ast.GeneratorExp, ast.ListComp)):
+            counted = c.args[0].elt
+    pfp = ck.params[-1] if ck.params else "path_function"
+    coarse = None
+    if counted is not None:
+        for x in ast.walk(counted):
+            if isinstance(x, ast.Call) and isinstance(x.func, ast.Attribute) and x.func.attr in ("casefold", "lower", "upper", "strip", "rstrip", "lstrip", "replace", "split", "title", "swapcase"):
+                coarse = x
+            if isinstance(x, ast.Call) and isinstance(x.func, ast.Name) and x.func.id in ("hash", "len", "sorted", "set", "frozenset"):
+                coarse = x
+    if coarse is not None:
+        out.append(ctx.viol(R, ck, coarse, f"the uniqueness check counts `{canon(counted)[:60]}`, a coarser key than the generated path: distinct paths (e.g. 'alpha' / 'Alpha') are reported as "
+                            "duplicates and a valid export / linked view is refused", construct=CHECK + "|counts-paths"))
+    elif "Counter(" in t and ("count > 1" in t or "> 1" in t) and any(isinstance(n, ast.Raise) for n in body_nodes(ck)):
         out.append(ctx.ok(R, ck, ck.node, "the check counts generated paths over all jobs and raises on any duplicate"))
     else:
         out.append(ctx.inc(R, ck, ck.node, "uniqueness check shape not recognised"))
@@ -354,6 +370,29 @@ def c16_e(ctx: Ctx):
         out.append(ctx.ok(R, g, mt[0], "the regex is applied with re.match (start-anchored)"))
     else:
         out.append(ctx.viol(R, g, (bad or [g.node])[0], "the schema regex is applied with re.search: any path that contains the pattern somewhere is parsed as a job"))
+    cb = ctx.prog.funcs.get(IE + ":_convert_bool")
+    kb = IE + ":_convert_bool|case"
+    if cb is None:
+        out.append(ctx.inc(R, None, None, "_convert_bool not found", construct=kb))
+    else:
+        gets = [c for c in body_nodes(cb) if isinstance(c, ast.Call) and isinstance(c.func, ast.Attribute) and c.func.attr == "get" and c.args]
+        tbl = None
+        for c in gets:
+            t = ctx.fold(c.func.value, cb)
+            if isinstance(t, dict):
+                tbl = (c, t)
+        if tbl is None:
+            out.append(ctx.inc(R, cb, cb.node, "_convert_bool: literal table not found", construct=kb))
+        else:
+            c, t = tbl
+            keyt = canon(common.inline_at(ctx, cb, c.args[0], c))
+            lowered = ".lower()" in keyt or ".casefold()" in keyt
+            keys_lower = all(isinstance(kx, str) and kx == kx.lower() for kx in t)
+            if keys_lower and not lowered and not any(kx in t for kx in ("True", "False")):
+                out.append(ctx.viol(R, cb, c, f"_convert_bool looks `{keyt}` up in a table of lower-case spellings {sorted(t)} without lower-casing it: export writes booleans as 'True' / 'False', so a "
+                                    "{flag:bool} schema parses the directory 'False' as bool('False') == True", construct=kb))
+            else:
+                out.append(ctx.ok(R, cb, c, "_convert_bool recognises the spellings that export writes ('True' / 'False') by lower-casing before the look-up", construct=kb))
     from .lints import nested_builder
     out += nested_builder(ctx, R)
     for tname, pat in sorted(types.items()):
@@ -407,11 +446,16 @@ def c16_f(ctx: Ctx):
         else:
             out.append(ctx.viol(R, c, n, f"{canon(n)}: import does not copy into the job's own directory"))
     inits = [n for n in body_nodes(c) if isinstance(n, ast.Call) and "signac.job:Job.init" in common.targets_of(ctx, c, n)]
-    if inits:
+    lazy = [n for n in inits if ctx.fold(kwarg(n, "validate_statepoint") or (n.args[1] if len(n.args) > 1 else None), c) is False]
+    if lazy:
+        out.append(ctx.viol(R, c, lazy[0], "the imported directory is 'initialised' with init(validate_statepoint=False), which returns as soon as the directory exists - and the copy has just "
+                            "created it: jobs identified by a schema (no state point files in the data space) never get signac_statepoint.json, a fresh project handle raises JobsCorruptedError"))
+    elif inits:
         out.append(ctx.ok(R, c, inits[0], "the imported directory is initialised as a job (state point written / validated)"))
     else:
         out.append(ctx.viol(R, c, c.node, "imported directories are not initialised: jobs imported through a schema function have no state point file"))
-    from .lints import no_nesting_move, no_path_text_search, walk_pruning_effective
+    from .lints import no_nesting_move, no_path_text_search, walk_pruning_effective, strip_is_not_removeprefix
+    out += strip_is_not_removeprefix(ctx, R, ["signac.import_export"])
     out += walk_pruning_effective(ctx, R, ["signac.import_export"])
     out += no_path_text_search(ctx, R, [IE + ":_CopyFromZipFileExecutor.__call__", IE + ":_CopyFromTarFileExecutor.__call__", IE + ":_analyze_zipfile_for_import",
                                        IE + ":_analyze_tarfile_for_import", IE + ":_analyze_directory_for_import", IE + ":_crawl_directory_data_space", IE + ":_zip_path_is_within"],
